@@ -94,7 +94,8 @@ func checkC09(c c09Case) string {
 		}
 		it := b.sub.Items[k]
 		k++
-		if w.clamped {
+		if w.clamped || orig.S < 0 {
+			// clamped by the first shift, or (start below zero to begin with) by the second one
 			continue
 		}
 		if int64(it.StartAt) != orig.S || int64(it.EndAt) != orig.E {
@@ -120,6 +121,12 @@ func c09NonTrivial(c c09Case) (bool, []string) {
 		prevRemoved = r
 	}
 	var ls []string
+	for _, cu := range c.Cues {
+		if cu.S < 0 {
+			ls = append(ls, "negative-start-before-the-shift")
+			break
+		}
+	}
 	if removed > 0 {
 		ls = append(ls, "removal")
 	}
@@ -175,6 +182,13 @@ func TestC09(t *testing.T) {
 
 	rapidCheck(t, "C09/random", tier(20000, 2000000), func(rt *rapid.T) {
 		cues := genCues(rt, 0, 8, 24*nsHour, opTexts)
+		if rapid.IntRange(0, 3).Draw(rt, "negative") == 0 && len(cues) > 0 {
+			// boundaries below zero (as a linear correction or an earlier hand edit may leave them): start <= end still holds
+			off := rapid.SampledFrom([]int64{1, nsMs, 5 * nsMs, cues[0].E + 1, cues[len(cues)-1].S + nsMs}).Draw(rt, "negoff")
+			for i := range cues {
+				cues[i].S, cues[i].E = cues[i].S-off, cues[i].E-off
+			}
+		}
 		var maxEnd int64
 		for _, cu := range cues {
 			if cu.E > maxEnd {
